@@ -6,7 +6,7 @@ BRIDGES = ["QuicProofs.Bridge.KeySet"]
 
 
 def run(ctx):
-    ctx.rule = ("histories of two real KeySet endpoints over a scripted reordering/duplicating/dropping channel with tiny limits "
+    ctx.rule = (ctx.rule + " | " if getattr(ctx, "rule", "") else "") + ("histories of two real KeySet endpoints over a scripted reordering/duplicating/dropping channel with tiny limits "
                 "(confidentiality 8-20, window 2-5, integrity 3-6); a case is non-trivial when the implementation accepted the op "
                 "(sealed / opened / timer tick) and distinct when op kind + full output line (result and both endpoints' state) differ")
     ctx.assumptions += ["ideal AEAD: a packet opens iff the selected slot holds the key generation it was sealed with (instrumented OneRttKey in the harness)",
